@@ -71,6 +71,18 @@ TEnc(ev) ==
             \o (IF CD!Decode(T, bits, <<>>) = ev.s THEN <<>> ELSE <<C("C18", "prefix decoding of the encoded bits does not give the string back")>>)
   IN  Report(ev, Cs) /\ Keep(<<ls, dac, codes, bs, sq, rp>>)
 
+\* the chunked decoding table, driven as the dictionaries drive it: what processChunk delivers for the encoded string
+\* must be the string itself (terminator included) and the decoder must have seen its end; the specification's own
+\* prefix decoding of the concatenated codewords gives the same string (so the table in the event is the one used)
+TTDec(ev) ==
+  LET T == codes[ev.id]
+      Cs == (IF ev.ended = 1 /\ ev.out = ev.s THEN <<>> ELSE <<C("C18", "table decoding does not give the encoded string back")>>)
+            \o (IF CD!Decode(T, CD!Concat(T, ev.s), <<>>) = ev.s THEN <<>> ELSE <<C("C18", "prefix decoding of the encoded bits does not give the string back")>>)
+  IN  Report(ev, Cs) /\ Keep(<<ls, dac, codes, bs, sq, rp>>)
+TTDecSum(ev) ==
+  Report(ev, IF ev.wrong = 0 THEN <<>> ELSE <<C("C18", "table decoding does not give the encoded string back (summary of a large corpus)")>>)
+  /\ Keep(<<ls, dac, codes, bs, sq, rp>>)
+
 \* ---- C19   (FastRanks / FastPos equal the plain definitions of Succinct.tla: checked in CompMC "succinct")
 FastPos(B, v) == SelectSeq([i \in 1..Len(B) |-> i], LAMBDA i : B[i] = v)
 FastRanks(B, v) == [i \in 1..Len(B) |-> Cardinality({k \in 1..i : B[k] = v})]
@@ -118,7 +130,7 @@ TNP(ev) == /\ Report(ev, IF ev.r = PR!NearestPrime(ev.n) /\ PR!NearestPrimeOK(ev
 
 SecProp(s) == IF SubSeq(s, 1, 3) = "has" THEN "C01"
               ELSE IF SubSeq(s, 1, 3) \in {"vby", "log", "dac"} THEN "C17"
-              ELSE IF SubSeq(s, 1, 3) = "cod" THEN "C18"
+              ELSE IF SubSeq(s, 1, 3) \in {"cod", "tab"} THEN "C18"
               ELSE IF SubSeq(s, 1, 3) \in {"bit", "wt-"} THEN "C19" ELSE "C20"
 TFault(ev) == /\ Report(ev, <<C(SecProp(ev.sec), "component call crashed or did not terminate (section " \o ev.sec \o ")")>>)
               /\ Keep(<<ls, dac, codes, bs, sq, rp>>)
@@ -127,7 +139,7 @@ TInit == /\ l = 1 /\ sec = "" /\ ls = <<>> /\ dac = <<>> /\ codes = <<>> /\ bs =
 
 Known(ev) == CASE ev.e \in {"LSSet", "LSGet", "LSReload"} -> ev.id \in DOMAIN ls
                [] ev.e = "DACAccess" -> ev.id \in DOMAIN dac
-               [] ev.e = "Enc" -> ev.id \in DOMAIN codes
+               [] ev.e \in {"Enc", "TDec", "TDecSum"} -> ev.id \in DOMAIN codes
                [] ev.e = "BSQ" -> ev.id \in DOMAIN bs
                [] ev.e = "SeqQ" -> ev.id \in DOMAIN sq
                [] ev.e \in {"RPOut", "RPReload"} -> ev.id \in DOMAIN rp
@@ -144,7 +156,7 @@ TNext ==
           ELSE CASE e = "VB" -> TVB(ev)
             [] e = "LSNew" -> TLSNew(ev) [] e = "LSSet" -> TLSSet(ev) [] e = "LSGet" -> TLSGet(ev) [] e = "LSReload" -> TLSReload(ev)
             [] e = "DACBuild" -> TDACBuild(ev) [] e = "DACAccess" -> TDACAccess(ev)
-            [] e = "Code" -> TCode(ev) [] e = "Enc" -> TEnc(ev)
+            [] e = "Code" -> TCode(ev) [] e = "Enc" -> TEnc(ev) [] e = "TDec" -> TTDec(ev) [] e = "TDecSum" -> TTDecSum(ev)
             [] e = "BSBuild" -> TBSBuild(ev) [] e = "BSQ" -> TBSQ(ev)
             [] e = "SeqBuild" -> TSeqBuild(ev) [] e = "SeqQ" -> TSeqQ(ev)
             [] e \in {"BSLoadNull", "SeqLoadNull"} -> Report(ev, <<C("C19", "load returned NULL for a saved structure")>>) /\ Keep(<<ls, dac, codes, bs, sq, rp>>)
